@@ -742,4 +742,47 @@ theorem noop_effect {s s' : State} {g : Ghost} {id : CellId} (H : HInv s g) (_ac
   · rw [hh]; exact H.keysId id
   · rw [hh]; exact H.sideId id
 
+/-! ### surgery 4: empty the whole bin (`clear`) -/
+
+theorem clear_update {s s' : State} {g : Ghost} {id : CellId} (H : HInv s g) (act : Active g id)
+    (hh : s'.heap = s.heap)
+    (hcell : ∀ id', getCell s' id' = if id' = id then .empty else getCell s id') (hcur : s'.cur = s.cur) :
+    Update s s' g id [] ∧ ∀ k, absOf s' k = if liveId s k = id then none else absOf s k := by
+  have u : Update s s' g id [] := by
+    refine ⟨by rw [hh]; exact H.nextOK, by rw [hh]; exact Nat.le_refl _, ?_, hcur, ?_, ?_, ?_, ?_, ?_⟩
+    · intro id' hne; rw [hcell id', if_neg hne]
+    · rw [hcell id, if_pos rfl]; simp
+    · rw [hcell id, if_pos rfl]; exact .nil _
+    · intro j _ _; rw [hh]
+    · intro a ha; cases ha
+    · intro j hj; cases hj
+  refine ⟨u, ?_⟩
+  intro k
+  rw [u.abs H act]
+  split
+  · rfl
+  · rfl
+
+/-- after a `clear` of the cell `id`: what is live was live before and is not on the cleared chain -/
+theorem Update.live_of_cleared {s s' : State} {g : Ghost} {id : CellId} (H : HInv s g) (act : Active g id)
+    (u : Update s s' g id []) {j : Nat} (hl : Live s' g.cr j) : Live s g.cr j ∧ j ∉ chId s id := by
+  obtain ⟨hC, hO⟩ := u.chains H act
+  have hmv := u.cell0_moved_iff H act
+  rw [live_iff] at hl
+  rcases hl with ⟨id', hm⟩ | ⟨hm, hcp⟩
+  · by_cases hid : id' = id
+    · subst hid; rw [hC] at hm; cases hm
+    · rw [hO id' hid] at hm
+      exact ⟨(live_iff s g.cr j).2 (Or.inl ⟨id', hm⟩), fun hj => H.disjoint act hid hj hm⟩
+  · have hm0 : s.cell0 ≠ .moved := fun h => hm (hmv.2 h)
+    refine ⟨(live_iff s g.cr j).2 (Or.inr ⟨hm0, hcp⟩), ?_⟩
+    intro hj
+    have hp : g.ph = .pre := by
+      rcases act with ⟨_, hp⟩ | ⟨_, hp⟩
+      · exact hp
+      · exact absurd (H.post hp) hm0
+    have hid : id = .c0 := act.pre_iff.1 hp
+    subst hid
+    exact H.oNotCopy j hj hcp
+
 end Flurry.Proto.BinX
